@@ -23,7 +23,12 @@ Applicable(ns, ts, s) ==
 \* name sets that collide with identifiers the template itself declares (mock, callInfo) or with each other after
 \* exported(): whether such a mock compiles is C01's question; C04 replays them whenever they do compile
 Fragile == {"casepair", "callinfo", "mock"}
-ClassTable == {[shape |-> s, names |-> ns, types |-> ts, fragile |-> (ns \in Fragile)] : s \in MCShapes, ns \in NameSets, ts \in TypeSets}
+\* how the two methods of the mocked interface are spelled: exported (A, B; mock in its own package) or, with the mock
+\* generated IN-PACKAGE, unexported names, initialism-like unexported names, and a pair differing only in the case of
+\* the first letter.  Matters wherever the template derives identifiers from the method name (MFunc, MCalls, lockM, ...).
+MethodNames == {"AB", "lower", "initialism", "twins"}
+ClassTable == {[shape |-> s, names |-> ns, types |-> ts, mnames |-> mn, fragile |-> (ns \in Fragile)] :
+                 s \in MCShapes, ns \in NameSets, ts \in TypeSets, mn \in MethodNames}
 Classes == {c \in ClassTable : Applicable(c.names, c.types, c.shape)}
 
 ASSUME PrintT(<<"CLASSES", ToJson(Classes)>>)
